@@ -371,6 +371,7 @@ def make_sched_run(cfg):
 
     def run_fn(chooser):
         config.reset(False)
+        config.COMMTIMEOUT = float(cfg.get("commtimeout", 0.0))
         sch = S.Scheduler(chooser, watch=watch)
         sch.install()
         violations = []
@@ -468,6 +469,9 @@ def run(ctx):
     scfgs.append({"mode": "single", "shape": "truthy", "creator": "fails_first", "threads": 2, "calls": 2, "p": 2 if quick else 3, "r": 10 ** 6})
     scfgs.append({"mode": "single", "shape": "truthy", "creator": "fails_first", "threads": 3, "calls": 1, "p": 2, "r": 4 if quick else 8})
     scfgs.append({"mode": "session", "shape": "truthy", "creator": "counting", "threads": 2, "calls": 2, "p": 2, "r": 10 ** 6})
+    # with a communication timeout configured (bounded waits inside the daemon may run out)
+    scfgs.append({"mode": "single", "shape": "truthy", "creator": "counting", "threads": 2, "calls": 1, "commtimeout": 2.0, "p": 2, "r": 10 ** 6})
+    scfgs.append({"mode": "single", "shape": "truthy", "creator": "counting", "threads": 3, "calls": 1, "commtimeout": 2.0, "p": 2, "r": 4})
     sst = explore_parallel(ctx, sched_task, scfgs, lambda c: c["p"], lambda c: c["r"])
     total.violations.extend(sst.violations)
     total.extra["schedules_explored"] = sst.executions
